@@ -688,7 +688,12 @@ func (c *Context) Cbrt(d, x *Decimal) (Condition, error) {
 	}
 
 	z0.Set(x)
-	res := c.round(d, &z)
+	// z is an approximation: rounding it in a directed mode could move the
+	// result a full unit away from the root (and off an exact cube), so round
+	// to nearest, as Sqrt does.
+	rc := *c
+	rc.Rounding = RoundHalfEven
+	res := rc.round(d, &z)
 	res, err := c.goError(res)
 	d.Negative = neg
 
